@@ -254,6 +254,96 @@ def main():
             else:
                 sess_guard_why = "unrecognised guard .started.%s (accesses: %s)" % (op, " ".join(accesses))
 
+    # ---- the run-local seq counter of a session stream (session.rs, threaded as `&mut u64` through the provider
+    # pipe, the tool runner's `emit` and the frame mapper): every site that builds a frame from the counter
+    # (`seq: *seq,` / `seq: *req.seq,` / `seq: *self.seq,` / `seq: self.seq,`) must be followed - before the next
+    # such site of the same function, or the end of the function - by exactly ONE `<counter> += 1;`.  Bulk
+    # sites (`emit_all(frames)`): frames renumbered by `frame.seq += self.seq_offset`, `frame_count =
+    # frames.len()` taken before, exactly one `*self.seq += frame_count as u64;` after.  Reported as
+    # (line, increments found); obligation: at least one site, every site 1.
+    emit_sites, emit_notes = [], []
+
+    def blank_strings(t):
+        out, i, n = [], 0, len(t)
+        while i < n:
+            c = t[i]
+            if c == '"':
+                j = i + 1
+                while j < n and t[j] != '"':
+                    j += 2 if t[j] == "\\" else 1
+                out.append('"' + " " * max(0, j - i - 1) + '"')
+                i = j + 1
+            else:
+                out.append(c)
+                i += 1
+        return "".join(out)
+
+    def fn_extents(t):
+        ext = []
+        for fm in re.finditer(r"\bfn\s+\w+\s*(?:<[^>{;]*>)?\s*\(", t):
+            try:
+                bi = t.index("{", _sig_end(t, fm.end()))
+            except ValueError:
+                continue
+            semi = t.find(";", _sig_end(t, fm.end()), bi)
+            if semi != -1:
+                continue
+            depth, bj = 1, bi + 1
+            while depth > 0 and bj < len(t):
+                depth += {"{": 1, "}": -1}.get(t[bj], 0)
+                bj += 1
+            ext.append((bi, bj))
+        return ext
+
+    for rel, must in [("crates/ripd/src/session.rs", True), ("crates/rip-tools/src/runtime.rs", True),
+                      ("crates/rip-provider-openresponses/src/lib.rs", True)]:
+        fp = os.path.join(a.repo, rel)
+        if not os.path.exists(fp):
+            emit_notes.append(rel + " missing")
+            emit_sites.append((0, 0))
+            continue
+        raw = open(fp).read()
+        cut = re.search(r"#\[cfg\(test\)\]\s*mod\s+\w+", raw)
+        raw = raw[:cut.start()] if cut else raw
+        # keep line numbers: comments are replaced by blanks of the same shape
+        t = re.sub(r"//[^\n]*", lambda m0: " " * len(m0.group(0)), raw)
+        t = re.sub(r"/\*.*?\*/", lambda m0: re.sub(r"[^\n]", " ", m0.group(0)), t, flags=re.S)
+        t = blank_strings(t)
+        ext = fn_extents(t)
+        reads = [(m0.start(), m0.end(), re.sub(r"\s+", "", m0.group(1))) for m0 in
+                 re.finditer(r"(?<![\w.])seq\s*:\s*(\*\s*(?:req\s*\.\s*|self\s*\.\s*)?seq|self\s*\.\s*seq)\s*,", t)]
+        found_here = 0
+        for k0, (p0, e0, expr) in enumerate(reads):
+            encl = [x for x in ext if x[0] <= p0 < x[1]]
+            if not encl:
+                continue
+            fb, fe = max(encl, key=lambda x: x[0])
+            # a read of the counter that is not a frame: the enclosing literal is not `Event {` / a dump input
+            head = t[max(fb, p0 - 400):p0]
+            lit = re.findall(r"(\w+)\s*\{", head)
+            if not lit or lit[-1] not in ("Event", "OpenResponsesRequestDumpInput"):
+                continue
+            nxt = min([r0[0] for r0 in reads[k0 + 1:] if r0[0] < fe] + [fe])
+            region = t[e0:nxt]
+            incs = len(re.findall(re.escape(expr).replace("\\*", r"\*\s*").replace("\\.", r"\s*\.\s*") + r"\s*\+=\s*1\s*;", region))
+            emit_sites.append((t.count("\n", 0, p0) + 1, incs))
+            found_here += 1
+        for bm in re.finditer(r"\.\s*emit_all\s*\(\s*frames\s*\)", t):
+            encl = [x for x in ext if x[0] <= bm.start() < x[1]]
+            if not encl:
+                continue
+            fb, fe = max(encl, key=lambda x: x[0])
+            before, after = t[fb:bm.start()], t[bm.end():fe]
+            ok = (len(re.findall(r"let\s+frame_count\s*=\s*frames\s*\.\s*len\(\)\s*;", before)) == 1
+                  and len(re.findall(r"frame\s*\.\s*seq\s*\+=\s*self\s*\.\s*seq_offset\s*;", before)) == 1
+                  and len(re.findall(r"\*\s*self\s*\.\s*seq\s*\+=\s*frame_count\s+as\s+u64\s*;", after)) == 1
+                  and len(re.findall(r"self\s*\.\s*seq\s*[-+]?=", after)) == 1)
+            emit_sites.append((t.count("\n", 0, bm.start()) + 1, 1 if ok else 0))
+            found_here += 1
+        if must and found_here == 0:
+            emit_notes.append(rel + ": no emit site found")
+            emit_sites.append((0, 0))
+
     def lst(xs):
         return "[" + "; ".join(xs) + "]"
 
@@ -302,6 +392,12 @@ Proof. vm_compute. reflexivity. Qed.""")
     out.append("Proof. vm_compute. reflexivity. Qed.")
     out.append("Lemma gen_sess_guard_atomic : sg_atomic gen_sess_guard = true.")
     out.append("Proof. vm_compute. reflexivity. Qed.")
+    out.append("")
+    out.append("(* emit sites of the run-local seq counter (session.rs, rip-tools runtime.rs, the provider frame mapper):")
+    out.append("   (line, `counter += 1` statements before the next site / the end of the function) %s *)" % "; ".join(emit_notes))
+    out.append("Definition gen_emit_sites : list (N * N) := %s." % lst(["(%d, %d)" % x for x in emit_sites]))
+    out.append("Lemma gen_emit_sites_ok : sites_ok gen_emit_sites = true.")
+    out.append("Proof. vm_compute. reflexivity. Qed.")
     os.makedirs(a.out, exist_ok=True)
     open(os.path.join(a.out, "AppendOps.v"), "w").write("\n".join(out) + "\n")
     for name, kind, st in locked:
@@ -310,6 +406,7 @@ Proof. vm_compute. reflexivity. Qed.""")
     print("branch            :", " ".join(branch))
     print("handoff           :", " ".join(handoff))
     print("spawn_session guard:", sess_guard, sess_guard_why)
+    print("run counter emit sites (line, increments):", emit_sites, emit_notes)
     print("other functions taking the seq mutex:", extra)
     print("TaskEmitter::emit :", " ".join(task_steps))
     return 0
